@@ -59,20 +59,54 @@ func lexNames(txt string) ([]string, int) {
 
 // generatedParserAccepts drives the real generated parser directly (own error listener, no repo listener).
 func generatedParserAccepts(txt string) bool {
-	ok, _, _ := generatedParserTree(txt)
+	ok, _, _, _ := generatedParserTree(txt)
 	return ok
 }
 
-func generatedParserTree(txt string) (bool, antlr.Tree, *parser.OpenFGAParser) {
+// budgetStream counts the look-ahead and consume calls the parser and its prediction engine make on the token
+// stream - a logical step counter. A parse of n tokens needs a small multiple of n of them (a few n^2 in the worst
+// prediction case); a generated parser whose hand-edited loop no longer consumes input makes them without end.
+type budgetStream struct {
+	*antlr.CommonTokenStream
+	steps, budget int64
+}
+
+type parserBudgetExceeded struct{ steps int64 }
+
+func (b *budgetStream) tick() {
+	b.steps++
+	if b.steps > b.budget {
+		panic(parserBudgetExceeded{b.steps})
+	}
+}
+func (b *budgetStream) LA(i int) int         { b.tick(); return b.CommonTokenStream.LA(i) }
+func (b *budgetStream) LT(k int) antlr.Token { b.tick(); return b.CommonTokenStream.LT(k) }
+func (b *budgetStream) Consume()             { b.tick(); b.CommonTokenStream.Consume() }
+
+var errParserBudget = fmt.Errorf("step budget of the generated parser exceeded")
+
+// generatedParserTree: ok = parsed without syntax error; steps < 0 = the step budget ran out (no result).
+func generatedParserTree(txt string) (ok bool, t antlr.Tree, p *parser.OpenFGAParser, steps int64) {
 	lx := parser.NewOpenFGALexer(antlr.NewInputStream(txt))
 	lx.RemoveErrorListeners()
-	st := antlr.NewCommonTokenStream(lx, antlr.TokenDefaultChannel)
-	p := parser.NewOpenFGAParser(st)
+	st := &budgetStream{CommonTokenStream: antlr.NewCommonTokenStream(lx, antlr.TokenDefaultChannel)}
+	n := int64(len(txt))
+	st.budget = 2_000_000 + 20_000*n
+	p = parser.NewOpenFGAParser(st)
 	pe := &countingListener{}
 	p.RemoveErrorListeners()
 	p.AddErrorListener(pe)
-	t := p.Main()
-	return pe.n == 0, t, p
+	defer func() {
+		if rec := recover(); rec != nil {
+			if _, isBudget := rec.(parserBudgetExceeded); isBudget {
+				ok, t, steps = false, nil, -1
+				return
+			}
+			panic(rec)
+		}
+	}()
+	t = p.Main()
+	return pe.n == 0, t, p, st.steps
 }
 
 // treeConforms walks a parse tree of the generated parser: every rule node must carry a rule of the grammar and its
@@ -157,8 +191,14 @@ func grammarVsParser1(run *core.Run, g *g4.Grammar, txt string, origin string) {
 		return // Earley is cubic; long inputs add nothing here
 	}
 	refOK := g.Accepts("main", tk)
-	realOK, tree, prs := generatedParserTree(txt)
+	realOK, tree, prs, steps := generatedParserTree(txt)
 	run.Eval(2)
+	if steps < 0 {
+		run.Violation("generated-parser-does-not-terminate-within-its-step-budget", &core.Case{Kind: "text", DSL: txt, Extra: map[string]string{"origin": origin}},
+			fmt.Sprintf("a parse (OpenFGAParser.g4 accepts: %v) within 2e6 + 2e4 x bytes look-ahead / consume calls on the token stream", refOK), fmt.Sprintf("budget exhausted on %d bytes, %d tokens", len(txt), len(tk)))
+		return
+	}
+	run.Max("max_token_stream_calls_of_one_parse", steps)
 	if refOK {
 		run.Count("texts_accepted_by_grammar", 1)
 	} else {
